@@ -27,6 +27,15 @@ impl idlc_codegen::SplitInvokeGenerator for Generator {
         let mut result = String::new();
         result.push_str(&generate_common());
 
+        if !self.is_no_typed_objects {
+            // A struct or a method may name an interface that the file declares further down.
+            for node in &mir.nodes {
+                if let Node::Interface(i) = node.as_ref() {
+                    result.push_str(&format!("typedef Object {};\n", i.ident));
+                }
+            }
+        }
+
         for node in &mir.nodes {
             match node.as_ref() {
                 Node::Include(i) => {
